@@ -117,7 +117,7 @@ fn c11_union_space<R: OpRep>(n1: usize, n2: usize, maxpar: usize) -> Space {
         let a = Abs::from_mask(n1, idx % c1);
         let b = Abs::from_mask(n2, idx / c1);
         let (da, db): (R, R) = (mk::<R>(&a), mk::<R>(&b));
-        let pars: Vec<usize> = if R::THREADED { (1..=maxpar).collect() } else { vec![1] };
+        let pars: Vec<usize> = if R::THREADED { if maxpar == 1 { vec![2] } else { (1..=maxpar).collect() } } else { vec![1] };
         union_checks(&a, &b, &da, &db, &pars, ctx);
         if idx / c1 == 0 {
             // idempotence, once per lhs
@@ -285,8 +285,10 @@ pub fn c11(tier: &str, seed: u64) -> Check {
         }
         spaces.push(c11_union_space::<AX>(4, 4, 1));
         spaces.push(c11_union_space::<EL>(4, 4, 1));
-        spaces.push(c11_union_space::<AL>(4, 4, 2));
-        spaces.push(c11_union_space::<AM>(4, 4, 2));
+        // (4,4) on the threaded representations: 16.7 M pairs x 2 directions of thread-spawning calls;
+        // one worker count each (the par sweep is done on the smaller spaces)
+        spaces.push(c11_union_space::<AL>(4, 4, 1));
+        spaces.push(c11_union_space::<AM>(4, 4, 1));
     }
     let aa = if thorough { 6 } else { 2 };
     spaces.push(c11_assoc_space::<AL>(aa));
